@@ -365,7 +365,18 @@ pub fn paths(ty: &Ty, v: &Val, cap: usize) -> Vec<Path> {
                     return;
                 }
                 let idx: Vec<usize> = if xs.len() > cap {
-                    let mut i = vec![0, xs.len() / 2, xs.len() - 1];
+                    let n = xs.len();
+                    let mut i = vec![0, n / 2, n - 1];
+                    // the engine handles long vectors in 64- and 128-element blocks (bits unpacked from
+                    // random words, transposition, chunked checks): both sides of the first block
+                    // boundary, the last index that is 63 mod 64, both sides of the last full 128-block
+                    if n > 64 {
+                        i.extend([63, 64, ((n - 64) / 64) * 64 + 63]);
+                    }
+                    if n > 128 {
+                        i.extend([(n / 128) * 128 - 1, ((n / 128) * 128).min(n - 1)]);
+                    }
+                    i.sort();
                     i.dedup();
                     i
                 } else {
